@@ -316,6 +316,19 @@ namespace
             out.set(Int{s2 + 900000});
         }
     };
+    // A node WITHOUT any validity requirement is deliberately evaluated when its (late-created) graph starts (schedule_sampled_input_consumers);
+    // the alone run models that with the same node scheduled at start.
+    struct NListSumAtStart
+    {
+        static constexpr auto name = "c12_list_sum_at_start";
+        static constexpr bool schedule_on_start = true;
+        static void eval(In<"l", PairL2, InputActivity::Active, InputValidity::Unchecked> l, Out<TS<Int>> out)
+        {
+            Int s2 = 0;
+            for (std::size_t i = 0; i < 2; ++i) if (l[i].valid()) s2 += (static_cast<Int>(i) + 2) * l[i].value();
+            out.set(Int{s2 + 900000});
+        }
+    };
     struct BListSum { static constexpr auto name = "c12_b_list_sum"; static Port<TS<Int>> compose(Wiring &w, Port<PairL2> l) { return wire<NListSum>(w, l); } };
     struct BListFirst { static constexpr auto name = "c12_b_list_first"; static Port<TS<Int>> compose(Wiring &w, Port<PairL2> l) { return tsl_element(l, 0); } };   // returns a leaf of its argument directly
 
@@ -385,7 +398,7 @@ namespace
                 auto a = wire<TsWriter>(w, Int{1});
                 auto b = wire<TsWriter2>(w);
                 Port<TS<Int>> o;
-                if (packed) o = l.key == 1 ? wire<NListSum>(w, stdlib::to_tsl<PairL2>(w, a, b).template as<PairL2>()) : Port<TS<Int>>{a};
+                if (packed) o = l.key == 1 ? wire<NListSumAtStart>(w, stdlib::to_tsl<PairL2>(w, a, b).template as<PairL2>()) : Port<TS<Int>>{a};
                 else o = l.key == 1 ? wire<NPairU>(w, a, b) : wire<NPairP>(w, a, b);
                 wire<EveryProbe<TS<Int>>>(w, o);
                 GraphBuilder gb = std::move(w).finish();
